@@ -16,6 +16,35 @@ pub mod sync {
         pub fn lock(&self) -> MutexGuard<'_, T> {
             MutexGuard { r: unsafe { &mut *self.cell.get() } }
         }
+        pub fn try_lock(&self) -> Result<MutexGuard<'_, T>, TryLockError> {
+            Ok(self.lock())
+        }
+        pub fn blocking_lock(&self) -> MutexGuard<'_, T> {
+            self.lock()
+        }
+        pub fn get_mut(&mut self) -> &mut T {
+            self.cell.get_mut()
+        }
+        pub fn into_inner(self) -> T {
+            self.cell.into_inner()
+        }
+    }
+    #[derive(Debug)]
+    pub struct TryLockError;
+    /// an uncontended reader-writer lock (same caveat as `Mutex`)
+    pub struct RwLock<T> {
+        inner: Mutex<T>,
+    }
+    impl<T> RwLock<T> {
+        pub fn new(t: T) -> Self {
+            RwLock { inner: Mutex::new(t) }
+        }
+        pub fn read(&self) -> MutexGuard<'_, T> {
+            self.inner.lock()
+        }
+        pub fn write(&self) -> MutexGuard<'_, T> {
+            self.inner.lock()
+        }
     }
     pub struct MutexGuard<'a, T> {
         r: &'a mut T,
